@@ -433,7 +433,15 @@ pub fn gen_case(r: &mut Rng) -> Case {
         } else if fault < 13 {
             scen.push("short".into()); // share counts do not add up
             parts[0] += 1;
+        } else if fault < 19 && sold >= 2 {
+            // the counts add up only together with a sale of ANOTHER security in the window
+            scen.push("crosssec".into());
+            if parts.len() < 2 {
+                let k = 1 + r.below(sold as u64 - 1) as u32;
+                parts = vec![k, sold - k];
+            }
         }
+        let cross = fault >= 13 && fault < 19 && sold >= 2;
         let np = parts.len();
         for (pi, p) in parts.iter().enumerate() {
             let mut t_off = off;
@@ -450,7 +458,8 @@ pub fn gen_case(r: &mut Rng) -> Case {
             let commission = if r.chance(80) { Some(Decimal::new(r.range(0, 2500), 2)) } else { None };
             // the recorded pre-2023 layout always prints a FEE (or COMMISSION) on the description line
             let fee = if r.chance(80) || (pre_layout && commission.is_none()) { Some(Decimal::new(r.range(1, 60), 2)) } else { None };
-            trades.push(GTrade { sec: sec.clone(), trade: td, settle: td + Duration::days(2), sell: true, price, shares: *p, commission, fee });
+            let tsec = if cross && pi == np - 1 { if sec == secs[0] { secs[1].to_string() } else { secs[0].to_string() } } else { sec.clone() };
+            trades.push(GTrade { sec: tsec, trade: td, settle: td + Duration::days(2), sell: true, price, shares: *p, commission, fee });
         }
         // distractors: manual sales that compete with this sell-to-cover
         if r.chance(45) {
